@@ -107,7 +107,7 @@ func (h *HttpServer) handleDescribe(w http.ResponseWriter, r *http.Request) {
 		return
 	}
 
-	req, err := ReadRequest(bytes.NewReader(body))
+	req, err := readRequestBytes(body)
 	if err != nil {
 		h.writeHttpError(w, http.StatusBadRequest, err, nil)
 		return
